@@ -47,7 +47,7 @@ Lemma rd_le_cons (bs : list N) p k x y :
   index bs p = Ok x -> rd_le bs (p + 1) k = Ok y -> rd_le bs p (k + 1) = Ok (x + 256 * y).
 Proof.
   intros I R. pose proof (rd_le_bound _ _ _ _ R) as B.
-  unfold index in I. destruct (nth_error bs (N.to_nat p)) as [x'|] eqn:NE; [|discriminate]. injection I as ->.
+  unfold index in I. bnorm. destruct (nth_error bs (N.to_nat p)) as [x'|] eqn:NE; cbv beta iota in I; [|discriminate]. injection I as ->.
   apply nth_error_skipn in NE.
   unfold rd_le, slice in *.
   replace ((p + 1 <=? p + 1 + k) && (p + 1 + k <=? blen bs)) with true in R
@@ -63,7 +63,7 @@ Qed.
 
 Lemma index_byte (bs : list N) p x : bytes_ok bs = true -> index bs p = Ok x -> x < 256.
 Proof.
-  unfold index, bytes_ok. intros Hb H. destruct (nth_error bs (N.to_nat p)) as [y|] eqn:NE; [|discriminate].
+  unfold index, bytes_ok. intros Hb H. bnorm. destruct (nth_error bs (N.to_nat p)) as [y|] eqn:NE; cbv beta iota in H; [|discriminate].
   injection H as <-. apply nth_error_In in NE. rewrite forallb_forall in Hb. apply N.ltb_lt. now apply Hb.
 Qed.
 
@@ -119,8 +119,9 @@ Qed.
 Ltac walk H :=
   repeat first
     [ discriminate H
-    | progress cbn [obind dev strict guard] in H
+    | progress cbn [obind dev strict] in H
     | match type of H with
+      | obind ?o _ = _ => destruct o
       | context [match ?x with _ => _ end] => destruct x
       end ].
 
